@@ -73,12 +73,20 @@ pub proof fn lemma_quadratic_root(a: (real, real), b: (real, real), c: (real, re
     let d = csub(cmul(b, b), cmul(cmul(four(), a), c)); let s = csqrt(d);
     let num = if plus { cadd(cneg(b), s) } else { csub(cneg(b), s) };
     axiom_csqrt(d);
-    assert(cmul(a, two()) != czero()) by { assert(cmul(a, two()) == (a.0 * 2real - a.1 * 0real, a.0 * 0real + a.1 * 2real)); assert(a.1 * 0real == 0real && a.0 * 0real == 0real) by(nonlinear_arith); }
+    // multiplication by the literals 2 and 4 is linear arithmetic: no nonlinear solver is involved
+    assert(cmul(a, two()) == (2real * a.0, 2real * a.1));
+    assert(cmul(a, two()) != czero());
     axiom_cdiv(num, cmul(a, two()));
     assert(cmul(r, cmul(a, two())) == num);
-    assert(cmul(a, two()) == (2real * a.0, 2real * a.1)) by(nonlinear_arith) requires cmul(a, two()) == (a.0 * 2real - a.1 * 0real, a.0 * 0real + a.1 * 2real);
-    assert(cmul(cmul(four(), a), c) == (4real * (a.0 * c.0 - a.1 * c.1), 4real * (a.0 * c.1 + a.1 * c.0))) by(nonlinear_arith)
-        requires cmul(cmul(four(), a), c) == ((4real * a.0 - 0real * a.1) * c.0 - (4real * a.1 + 0real * a.0) * c.1, (4real * a.0 - 0real * a.1) * c.1 + (4real * a.1 + 0real * a.0) * c.0);
+    assert(cmul(four(), a) == (4real * a.0, 4real * a.1));
+    assert(cmul(cmul(four(), a), c) == (4real * a.0 * c.0 - 4real * a.1 * c.1, 4real * a.0 * c.1 + 4real * a.1 * c.0));
+    // re-association of single products (each a one-line fact for the nonlinear solver)
+    assert((4real * a.0) * c.0 == 4real * (a.0 * c.0)) by(nonlinear_arith);
+    assert((4real * a.1) * c.1 == 4real * (a.1 * c.1)) by(nonlinear_arith);
+    assert((4real * a.0) * c.1 == 4real * (a.0 * c.1)) by(nonlinear_arith);
+    assert((4real * a.1) * c.0 == 4real * (a.1 * c.0)) by(nonlinear_arith);
+    assert(d == ((b.0 * b.0 - b.1 * b.1) - 4real * (a.0 * c.0 - a.1 * c.1), (b.0 * b.1 + b.1 * b.0) - 4real * (a.0 * c.1 + a.1 * c.0)));
+    assert(cmul(s, s) == (s.0 * s.0 - s.1 * s.1, s.0 * s.1 + s.1 * s.0));
     if plus { lemma_quad_plus(a.0, a.1, b.0, b.1, c.0, c.1, s.0, s.1, r.0, r.1); } else { lemma_quad_minus(a.0, a.1, b.0, b.1, c.0, c.1, s.0, s.1, r.0, r.1); }
 }
 // ---- callees: CONTRACTS ONLY here (their bodies are verified at the real instantiation in C13 / C12 / C08) ----
